@@ -354,6 +354,11 @@ def run_flatten_case(res, case):
     res["evaluations"] += 1
     rng = onp.random.Generator(onp.random.PCG64(case["seed"]))
     val = gen_container(rng, cx=False)
+    if case["seed"][1] % 3 == 0:
+        # leaves with another memory layout (Fortran-ordered / transposed views): same values
+        val = common.tree_map(lambda l: onp.asfortranarray(l) if isinstance(l, onp.ndarray) and l.ndim >= 2 else l, val)
+        if not any(isinstance(l, onp.ndarray) and l.ndim >= 2 for l in common.leaves(val)):
+            val = (val, onp.asfortranarray(rng.standard_normal((2, 3))), rng.standard_normal((3, 2)).T)
     # flatten documents: no mixed numeric types, sortable keys
     sig = {"engine": "containers", "family": "flatten", "struct": repr(sdesc(val))[:200]}
 
@@ -410,6 +415,54 @@ def run_flatten_case(res, case):
         res["not_judged"]["empty"] = res["not_judged"].get("empty", 0) + 1
         return
     res["judged"][sig_key(sig)] = res["judged"].get(sig_key(sig), 0) + 1
+
+
+def run_dict_order_cases(res, rng):
+    """Dict-valued values whose contributions arrive with different key insertion orders (a caller's
+    cotangent for an output that *is* the argument, plus indexed uses): results are keyed, not positional."""
+    import autograd.builtins as ab
+    import autograd.numpy as anp
+    from autograd.core import make_jvp, make_vjp
+
+    d0 = {"a": onp.array([1.0, 2.0]), "b": onp.array([0.5, -1.5]), "c": onp.array([3.0, 0.25])}
+    progs = {
+        "whole_then_key": (lambda d: ab.tuple((d, d["a"] * 2.0, d["c"] * d["b"])), lambda g: {"a": g[0]["a"] + 2.0 * g[1], "b": g[0]["b"] + g[2] * d0["c"], "c": g[0]["c"] + g[2] * d0["b"]}),
+        "whole_twice": (lambda d: ab.tuple((d, d)), lambda g: {k: g[0][k] + g[1][k] for k in d0}),
+        "key_then_whole": (lambda d: ab.tuple((d["b"] * 3.0, d)), lambda g: {"a": g[1]["a"], "b": g[1]["b"] + 3.0 * g[0], "c": g[1]["c"]}),
+        "nested_whole": (lambda d: ab.dict({"x": d, "y": d["a"] + d["b"]}), lambda g: {"a": g["x"]["a"] + g["y"], "b": g["x"]["b"] + g["y"], "c": g["x"]["c"]}),
+    }
+    orders = (["a", "b", "c"], ["c", "b", "a"], ["b", "c", "a"])
+
+    def reorder(v, order):
+        if isinstance(v, dict) and set(v) == set(order):
+            return {k: reorder(v[k], order) for k in order}
+        if isinstance(v, dict):
+            return {k: reorder(x, order) for k, x in v.items()}
+        if isinstance(v, (tuple, list)):
+            return type(v)(reorder(x, order) for x in v)
+        return v
+
+    for name, (f, expected) in progs.items():
+        for order in orders:
+            res["evaluations"] += 1
+            sig = {"engine": "containers", "family": "dict_order", "prog": name, "order": "".join(order)}
+            case = {"kind": "dict_order", "prog": name, "order": order}
+            try:
+                with warnings.catch_warnings():
+                    warnings.simplefilter("ignore")
+                    vjp, y = make_vjp(f, d0)
+                    g = reorder(common.rand_like(rng, y), order)
+                    r = vjp(g)
+                    exp = expected(g)
+            except Exception as e:
+                res["violations"].append({"sig": dict(sig, symptom="exception:" + type(e).__name__), "case": case, "detail": traceback.format_exc()[-300:]})
+                continue
+            bad = [k for k in d0 if not onp.allclose(r[k], exp[k], rtol=1e-13, atol=1e-13)] if isinstance(r, dict) and set(r) == set(d0) else ["structure"]
+            if bad:
+                res["violations"].append({"sig": dict(sig, symptom="wrong_value"), "case": case, "detail": "gradient leaves %s wrong when the caller's cotangent lists keys as %s: got %s expected %s" % (bad, order, common.brief(r, 200), common.brief(exp, 200))})
+                continue
+            res["judged"][sig_key(sig)] = 1
+            res["counters"]["dict_order_cases"] = res["counters"].get("dict_order_cases", 0) + 1
 
 
 def run_namedtuple_cases(res, rng):
@@ -478,6 +531,8 @@ def run_shard(pid, tier, seed, idx, n):
             res["sets"].setdefault("harness_errors", set()).add(traceback.format_exc()[-500:])
     if idx == 0:
         run_namedtuple_cases(res, onp.random.Generator(onp.random.PCG64([seed, 59])))
+    if idx == 1 % n:
+        run_dict_order_cases(res, onp.random.Generator(onp.random.PCG64([seed, 61])))
     res["sets"] = {k: sorted(v) for k, v in res["sets"].items()}
     return res
 
@@ -489,6 +544,9 @@ def replay(pid, case):
         run_case(res, case)
     elif case["kind"] == "flatten":
         run_flatten_case(res, case)
+    elif case["kind"] == "dict_order":
+        run_dict_order_cases(res, onp.random.Generator(onp.random.PCG64(61)))
+        res["violations"] = [v for v in res["violations"] if v["case"] == case]
     else:
         run_namedtuple_cases(res, onp.random.Generator(onp.random.PCG64(59)))
         res["violations"] = [v for v in res["violations"] if v["case"] == case]
